@@ -7,36 +7,42 @@ Open Scope Z_scope.
 Definition expect_format (c : cfg) (version : bytes) : format :=
   {| f_version := 4; f_server := version; f_hlen := c_hlen c; f_alg := alg_of c; f_sizes := sizes_table c |}.
 
-Definition expect_bitmap (bits : list bool) : bitmap := {| bm_data := pack_bits bits; bm_count := length bits |}.
+(* a decoded bitmap keeps the bytes as they were on the wire, padding bits included (pad: the pattern the
+   master used); only bits 0 .. bm_count-1 are ever meaningful *)
+Definition expect_bitmap (pad : Z) (bits : list bool) : bitmap :=
+  {| bm_data := pack_bits_pad pad bits; bm_count := length bits |}.
 
-Definition expect_table_map (t : table_def) : table_map :=
+(* pad: padding pattern of the table map's nullable-columns bitmap (c_pad_tm of the configuration that wrote it) *)
+Definition expect_table_map (pad : Z) (t : table_def) : table_map :=
   {| tm_flags := td_flags t; tm_db := td_db t; tm_name := td_name t;
      tm_types := map (fun p => code_of (fst p)) (td_cols t);
-     tm_can_be_null := expect_bitmap (map snd (td_cols t));
+     tm_can_be_null := expect_bitmap pad (map snd (td_cols t));
      tm_meta := map (fun p => meta_of (fst p)) (td_cols t) |}.
 
-Definition expect_row (tys : list coltype) (kind : Z) (b a : option (list cellv)) : row :=
-  {| r_null_ident := match b with Some img => expect_bitmap (null_bits img) | None => bitmap_zero end;
-     r_null_data := match a with Some img => expect_bitmap (null_bits img) | None => bitmap_zero end;
+(* pad: padding pattern of the rows' NULL bitmaps *)
+Definition expect_row (pad : Z) (tys : list coltype) (kind : Z) (b a : option (list cellv)) : row :=
+  {| r_null_ident := match b with Some img => expect_bitmap pad (null_bits img) | None => bitmap_zero end;
+     r_null_data := match a with Some img => expect_bitmap pad (null_bits img) | None => bitmap_zero end;
      r_ident := option_map (image_cells tys) b;
      r_data := option_map (image_cells tys) a |}.
 
-Fixpoint expect_row_list (tys : list coltype) (kind : Z) (b a : list (list cellv)) {struct b} : list row :=
+Fixpoint expect_row_list (pad : Z) (tys : list coltype) (kind : Z) (b a : list (list cellv)) {struct b} : list row :=
   match kind with
-  | 0 => map (fun img => expect_row tys kind None (Some img)) a
-  | 2 => map (fun img => expect_row tys kind (Some img) None) b
+  | 0 => map (fun img => expect_row pad tys kind None (Some img)) a
+  | 2 => map (fun img => expect_row pad tys kind (Some img) None) b
   | _ => match b, a with
-         | x :: br, y :: ar => expect_row tys kind (Some x) (Some y) :: expect_row_list tys kind br ar
+         | x :: br, y :: ar => expect_row pad tys kind (Some x) (Some y) :: expect_row_list pad tys kind br ar
          | _, _ => []
          end
   end.
 
-Definition expect_rows (tys : list coltype) (r : rows_def) : rows :=
+(* c: the configuration that wrote the event (its padding patterns c_pad_cols / c_pad_null are kept in the bitmaps) *)
+Definition expect_rows (c : cfg) (tys : list coltype) (r : rows_def) : rows :=
   let n := length tys in
   {| rs_flags := rd_flags r;
-     rs_ident_cols := if rd_kind r =? 0 then bitmap_zero else expect_bitmap (first_present (rd_before r) n);
-     rs_data_cols := if rd_kind r =? 2 then bitmap_zero else expect_bitmap (first_present (rd_after r) n);
-     rs_rows := expect_row_list tys (rd_kind r) (rd_before r) (rd_after r) |}.
+     rs_ident_cols := if rd_kind r =? 0 then bitmap_zero else expect_bitmap (c_pad_cols c) (first_present (rd_before r) n);
+     rs_data_cols := if rd_kind r =? 2 then bitmap_zero else expect_bitmap (c_pad_cols c) (first_present (rd_after r) n);
+     rs_rows := expect_row_list (c_pad_null c) tys (rd_kind r) (rd_before r) (rd_after r) |}.
 
 (* well-formed rows definition: images have one entry per column, share the presence pattern,
    every value is valid for its column type, and every image has at least one present column *)
